@@ -61,6 +61,10 @@ func scenarioC07(rc *RunCtx) {
 	prog := GenProg(t, pf)
 	fl := genFlags(t, 40)
 	fl.NoFailFile = !t.Chance("c07.failfile", 25)
+	fl.Short = t.Chance("flags.short", 15)
+	if fl.Short && fl.Checks < 5 {
+		fl.Checks = 5 + fl.Checks // under -short rapid divides the number of checks by 5
+	}
 	cc := genClockChoice(t, fl.ShrinkTime, 4, 3, 2, 3, 1)
 	name := genName(t, false)
 	withCtx := t.Chance("tb.ctx", 15)
